@@ -161,3 +161,61 @@ def bounds_stack_classes(raw):
     if nload_sfs < nload_block and not raw.get("rules"):
         out.append("bounds|max_sk_sz after two loads were unified")
     return out
+
+
+def sym_accesses(tokens):
+    """memory / storage accesses of a straight-line instruction list with their operand terms (terms as text: initial stack
+    elements s0, s1, .., constants by value, everything else named by operator and operand terms): [(op, [terms])]"""
+    st, acc, nin = [], [], [0]
+
+    def pop():
+        if st:
+            return st.pop()
+        nin[0] += 1
+        return "s%d" % (nin[0] - 1)
+    for t in tokens:
+        w = t.split()
+        op = w[0]
+        if op == "PUSH0":
+            st.append("#0")
+        elif op == "PUSH" and len(w) == 2:
+            st.append("#" + (w[1].lower().lstrip("0") or "0"))
+        elif op.startswith("PUSH"):
+            st.append(t)
+        elif op.startswith("DUP") and op[3:].isdigit():
+            k = int(op[3:])
+            while len(st) < k:
+                st.insert(0, "s%d" % nin[0]); nin[0] += 1
+            st.append(st[-k])
+        elif op.startswith("SWAP") and op[4:].isdigit():
+            k = int(op[4:])
+            while len(st) < k + 1:
+                st.insert(0, "s%d" % nin[0]); nin[0] += 1
+            st[-1], st[-1 - k] = st[-1 - k], st[-1]
+        else:
+            try:
+                p, q = gen.arity(t)
+            except Exception:
+                p, q = 0, 0
+            args = [pop() for _ in range(p)]
+            if op in ("MLOAD", "SLOAD", "KECCAK256", "SHA3", "MSTORE", "MSTORE8", "SSTORE"):
+                acc.append((op, args))
+            for _ in range(q):
+                st.append("%s(%s)#%d" % (op, ",".join(args), len(acc)) if op in ("MLOAD", "SLOAD", "KECCAK256", "SHA3") else "%s(%s)" % (op, ",".join(args)))
+    return acc
+
+
+def repeated_load_across_store(plain):
+    """does the block read one address term twice (same load instruction, same operand terms) with a store of the same domain in
+    between?  The front-end then keeps two load instructions that are textually identical, and the checker matches instructions of
+    the two specifications by their text."""
+    acc = sym_accesses(gen.tokens(plain))
+    dom = lambda op: "sto" if op in ("SLOAD", "SSTORE") else "mem"
+    for i in range(len(acc)):
+        if acc[i][0] not in ("MLOAD", "SLOAD", "KECCAK256", "SHA3"):
+            continue
+        for j in range(i + 1, len(acc)):
+            if acc[j][0] == acc[i][0] and acc[j][1] == acc[i][1]:
+                if any(acc[k][0] in ("MSTORE", "MSTORE8", "SSTORE") and dom(acc[k][0]) == dom(acc[i][0]) for k in range(i + 1, j)):
+                    return True
+    return False
